@@ -184,47 +184,81 @@ theorem reach_invariant {d0 d : Decoder} {evs : List Event} (h : Reach d0 d evs)
 
 /-! ### the model's own loops stay inside `Reach` -/
 
+theorem countParts_cons (ev : Event) (l : List Event) :
+    countParts (ev :: l) = (if isPart ev then 1 else 0) + countParts l := by
+  simp only [countParts, List.filter_cons]
+  split <;> simp <;> omega
+
+theorem countParts_reverse (l : List Event) : countParts l.reverse = countParts l := by
+  simp [countParts, List.filter_reverse]
+
+/-- `drain` stays inside `Reach`; the part events it reports are the part events of the trace -/
 theorem reach_drain {d0 : Decoder} (fuel : Nat) :
     ∀ (d : Decoder) (evs acc : List Event), Reach d0 d evs →
-      ∃ evs', Reach d0 (drain fuel d acc).dec evs' := by
+      ∃ evs', Reach d0 (drain fuel d acc).dec evs' ∧
+        countParts evs' + countParts acc = countParts evs + countParts (drain fuel d acc).events := by
   induction fuel with
-  | zero => intro d evs acc h; exact ⟨evs, by simpa [drain] using h⟩
+  | zero =>
+    intro d evs acc h
+    exact ⟨evs, by simpa [drain] using h, by simp [drain, countParts_reverse]⟩
   | succ fuel ih =>
     intro d evs acc h
     simp only [drain]
     cases hn : nextEvent d with
-    | error e => exact ⟨evs, by simpa using h⟩
+    | error e => exact ⟨evs, by simpa using h, by simp [countParts_reverse]⟩
     | ok v =>
       rcases v with ⟨ev, d'⟩
       have h' := Reach.next h hn
+      have hstep : ∀ ev0 : Event, (∃ evs', Reach d0 (drain fuel d' (ev0 :: acc)).dec evs' ∧
+          countParts evs' + countParts (ev0 :: acc) =
+            countParts (evs ++ [ev0]) + countParts (drain fuel d' (ev0 :: acc)).events) →
+          ∃ evs', Reach d0 (drain fuel d' (ev0 :: acc)).dec evs' ∧
+            countParts evs' + countParts acc = countParts evs + countParts (drain fuel d' (ev0 :: acc)).events := by
+        intro ev0 ⟨evs', hr, hc⟩
+        refine ⟨evs', hr, ?_⟩
+        rw [countParts_cons, countParts_append, countParts_cons] at hc
+        simp only [countParts, List.filter_nil, List.length_nil] at hc ⊢
+        omega
       cases ev with
-      | needData => exact ⟨_, by simpa using h'⟩
-      | epilogue x => exact ⟨_, by simpa using h'⟩
-      | preamble x => exact ih d' _ _ h'
-      | field n hd => exact ih d' _ _ h'
-      | file n f hd => exact ih d' _ _ h'
-      | data x m => exact ih d' _ _ h'
+      | needData =>
+        refine ⟨_, by simpa using h', ?_⟩
+        simp [countParts_append, countParts_reverse, countParts_cons, isPart]
+        simp [countParts]
+      | epilogue x =>
+        refine ⟨_, by simpa using h', ?_⟩
+        simp only [countParts_append, countParts_reverse, countParts_cons, isPart, List.reverse_cons]
+        simp [countParts]
+      | preamble x => exact hstep _ (ih d' _ _ h')
+      | field n hd => exact hstep _ (ih d' _ _ h')
+      | file n f hd => exact hstep _ (ih d' _ _ h')
+      | data x m => exact hstep _ (ih d' _ _ h')
 
 theorem reach_feed {d0 d : Decoder} {evs : List Event} (c : Option Bytes) (h : Reach d0 d evs) :
-    ∃ evs', Reach d0 (feed d c).dec evs' := by
+    ∃ evs', Reach d0 (feed d c).dec evs' ∧
+      countParts evs' = countParts evs + countParts (feed d c).events := by
   unfold feed
   cases hr : receive d c with
-  | error e => exact ⟨evs, by simpa using h⟩
-  | ok d' => exact reach_drain _ d' evs [] (Reach.recv h hr)
+  | error e => exact ⟨evs, by simpa using h, by simp [countParts]⟩
+  | ok d' =>
+    rcases reach_drain (drainFuel d') d' evs [] (Reach.recv h hr) with ⟨evs', h1, h2⟩
+    exact ⟨evs', h1, by simpa [countParts] using h2⟩
 
 theorem reach_feedAll {d0 : Decoder} (chunks : List Bytes) :
     ∀ (d : Decoder) (evs : List Event), Reach d0 d evs →
-      ∃ evs', Reach d0 (feedAll d chunks).dec evs' := by
+      ∃ evs', Reach d0 (feedAll d chunks).dec evs' ∧
+        countParts evs' = countParts evs + countParts (feedAll d chunks).events := by
   induction chunks with
   | nil => intro d evs h; exact reach_feed none h
   | cons c cs ih =>
     intro d evs h
     simp only [feedAll]
-    rcases reach_feed (some c) h with ⟨evs1, h1⟩
+    rcases reach_feed (some c) h with ⟨evs1, h1, hc1⟩
     split
-    · exact ⟨evs1, h1⟩
-    · rcases ih _ evs1 h1 with ⟨evs2, h2⟩
-      exact ⟨evs2, by simpa using h2⟩
+    · exact ⟨evs1, h1, hc1⟩
+    · rcases ih _ evs1 h1 with ⟨evs2, h2, hc2⟩
+      refine ⟨evs2, by simpa using h2, ?_⟩
+      simp only [countParts_append]
+      omega
 
 /-! ### limits only add raise points (simulation) -/
 
@@ -399,7 +433,7 @@ theorem feedAll_unl (chunks : List Bytes) : ∀ (d : Decoder),
       rw [herr]
       simp only [hdec, hev]
       rw [ih _ h]
-      simp [Run.unl, he]
+      simp [Run.unl]
 
 /-! ### `MultiPartParser.parse`: the field-size guard -/
 
@@ -421,13 +455,13 @@ theorem formEvent_unl {m : Option Nat} {st st1 st' : FormState} {ev : Event}
   | data x more =>
     simp only [formEvent] at h ⊢
     rw [hc]
-    -- the size computation succeeded under the limit
-    cases hfs : (match m, st.fieldSize with
-        | some m, some sz => if sz + x.length > m then (Except.error "RequestEntityTooLarge" : Except String (Option Nat)) else .ok (some (sz + x.length))
-        | _, fsz => .ok fsz) with
+    cases hfs : fieldSizeStep m st.fieldSize x.length with
     | error e => rw [hfs] at h; simp at h
     | ok fsz =>
       rw [hfs] at h
+      have hfs' : fieldSizeStep none st'.fieldSize x.length = .ok st'.fieldSize := by
+        simp [fieldSizeStep]
+      rw [hfs']
       cases hcur : st.cur with
       | none => rw [hcur] at h; simp at h
       | some p =>
@@ -512,58 +546,146 @@ theorem formEvent_fieldOk {m : Nat} {st st1 : FormState} {ev : Event}
     intro p hp hf; simp at hp; subst hp; simp at hf
   | data x more =>
     simp only [formEvent] at h
-    cases hcur : st.cur with
-    | none =>
-      rw [hcur] at h
-      cases hfs : st.fieldSize with
-      | none => rw [hfs] at h; simp at h
-      | some sz =>
-        rw [hfs] at h; simp only at h
-        split at h <;> simp at h
-    | some p =>
-      rw [hcur] at h
-      cases hfile : p.isFile with
-      | true =>
-        -- a file part: whatever happens, the current part stays a file
-        cases hfs : st.fieldSize with
-        | none =>
-          rw [hfs] at h; simp only at h
-          cases more with
-          | true => simp at h; subst h; intro q hq hqf; simp at hq; subst hq; simp [hfile] at hqf
-          | false =>
-            simp [hfile] at h; subst h
-            intro q hq hqf; simp at hq; subst hq; simp [hfile] at hqf
-        | some sz =>
-          rw [hfs] at h; simp only at h
-          split at h
-          · simp at h
-          · simp only at h
-            cases more with
-            | true => simp at h; subst h; intro q hq hqf; simp at hq; subst hq; simp [hfile] at hqf
-            | false =>
-              simp [hfile] at h; subst h
-              intro q hq hqf; simp at hq; subst hq; simp [hfile] at hqf
-      | false =>
-        rcases hok p hcur hfile with ⟨hsz, hle⟩
-        rw [hsz] at h
+    cases hfs : fieldSizeStep (some m) st.fieldSize x.length with
+    | error e => rw [hfs] at h; simp at h
+    | ok fsz =>
+      rw [hfs] at h
+      cases hcur : st.cur with
+      | none => rw [hcur] at h; simp at h
+      | some p =>
+        rw [hcur] at h
         simp only at h
-        split at h
-        · simp at h
-        · rename_i hgt
-          simp only at h
-          have hlen : (p.payload ++ x).length ≤ m := by simp at hgt ⊢; omega
-          cases more with
+        -- the new current part, whichever branch is taken
+        have key : ∀ q : Part, q = { p with payload := p.payload ++ x } → q.isFile = false →
+            fsz = some q.payload.length ∧ q.payload.length ≤ m := by
+          intro q hq hqf
+          subst hq
+          rcases hok p hcur hqf with ⟨hsz, _⟩
+          rw [hsz] at hfs
+          simp only [fieldSizeStep] at hfs
+          split at hfs
+          · simp at hfs
+          · rename_i hgt
+            simp at hfs hgt ⊢
+            exact ⟨by rw [← hfs], by omega⟩
+        cases more with
+        | true =>
+          simp at h; subst h
+          intro q hq hqf; simp at hq
+          exact key q hq.symm hqf
+        | false =>
+          simp only [Bool.false_eq_true, if_false] at h
+          cases hfile : p.isFile with
           | true =>
-            simp at h; subst h
-            intro q hq _; simp at hq; subst hq
-            exact ⟨by simp, hlen⟩
+            simp [hfile] at h; subst h
+            intro q hq hqf; simp at hq; subst hq; simp at hqf
           | false =>
-            simp only [Bool.false_eq_true, if_false, hfile] at h
+            simp only [hfile, Bool.false_eq_true, if_false] at h
             cases hcs : partCharset p.headers with
             | error e => rw [hcs] at h; simp at h
             | ok cs =>
               rw [hcs] at h; simp at h; subst h
-              intro q hq _; simp at hq; subst hq
-              exact ⟨by simp, hlen⟩
+              intro q hq hqf; simp at hq
+              exact key q (by rw [← hq, hfile]) hqf
 
 end Wz.Multipart
+
+namespace Wz.Urlencode
+open Wz
+
+/-! ### the bounded read of `_parse_urlencoded` -/
+
+/-- how many bytes one `read(n)` asks the stream for -/
+def readSize (n : Nat) (sched : List Nat) : Nat :=
+  match sched with
+  | [] => n
+  | s :: _ => min n (max 1 s)
+
+theorem streamRead_eq (n : Nat) (sched : List Nat) (body : Bytes) :
+    streamRead n sched body = (body.take (readSize n sched), sched.tail, body.drop (readSize n sched)) := by
+  cases sched <;> rfl
+
+theorem readSize_le (n : Nat) (sched : List Nat) : readSize n sched ≤ n := by
+  cases sched with
+  | nil => simp [readSize]
+  | cons s t => simp only [readSize]; exact Nat.min_le_left _ _
+
+theorem readSize_pos {n : Nat} (sched : List Nat) (h : 0 < n) : 0 < readSize n sched := by
+  cases sched with
+  | nil => simpa [readSize] using h
+  | cons s t =>
+    simp only [readSize]
+    have : 1 ≤ max 1 s := Nat.le_max_left _ _
+    exact Nat.lt_of_lt_of_le Nat.zero_lt_one (Nat.le_min.2 ⟨h, this⟩)
+
+/-- the loop never holds more than what it was allowed to read -/
+theorem boundedLoop_taken (fuel : Nat) : ∀ (rem : Nat) (sched : List Nat) (body held : Bytes),
+    (boundedLoop fuel rem sched body held).2 ≤ held.length + rem := by
+  induction fuel with
+  | zero => intro rem sched body held; simp [boundedLoop]
+  | succ fuel ih =>
+    intro rem sched body held
+    simp only [boundedLoop]
+    split
+    · simp
+    · rw [streamRead_eq]
+      simp only
+      split
+      · simp
+      · have hk := readSize_le rem sched
+        have := ih (rem - (body.take (readSize rem sched)).length) sched.tail
+          (body.drop (readSize rem sched)) (held ++ body.take (readSize rem sched))
+        have hl : (body.take (readSize rem sched)).length ≤ rem := by
+          simp [List.length_take]; omega
+        simp only [List.length_append] at this
+        omega
+
+/-- with enough fuel the loop returns the whole body when it is shorter than `remaining`, and
+raises otherwise -/
+theorem boundedLoop_result (fuel : Nat) : ∀ (rem : Nat) (sched : List Nat) (body held : Bytes),
+    rem < fuel →
+    (boundedLoop fuel rem sched body held).1 =
+      if body.length < rem then .ok (held ++ body) else .error "RequestEntityTooLarge" := by
+  induction fuel with
+  | zero => intro rem sched body held h; omega
+  | succ fuel ih =>
+    intro rem sched body held hf
+    simp only [boundedLoop]
+    by_cases h0 : rem = 0
+    · subst h0; simp
+    · have hr : (rem == 0) = false := by simp [h0]
+      rw [hr]
+      simp only [Bool.false_eq_true, if_false]
+      rw [streamRead_eq]
+      simp only
+      have hk := readSize_le rem sched
+      have hkp := readSize_pos sched (Nat.pos_of_ne_zero h0)
+      cases body with
+      | nil => simp; omega
+      | cons b t =>
+        have hne : ((b :: t).take (readSize rem sched)).isEmpty = false := by
+          cases hrs : readSize rem sched with
+          | zero => omega
+          | succ k => simp
+        rw [hne]
+        simp only [Bool.false_eq_true, if_false]
+        rw [ih _ _ _ _ (by
+          have : 0 < ((b :: t).take (readSize rem sched)).length := by
+            cases hrs : readSize rem sched with
+            | zero => omega
+            | succ k => simp
+          omega)]
+        have hlt : ((b :: t).take (readSize rem sched)).length = min (readSize rem sched) (b :: t).length := by
+          simp [List.length_take]
+        have hld : ((b :: t).drop (readSize rem sched)).length = (b :: t).length - readSize rem sched := by
+          simp
+        rw [List.append_assoc, List.take_append_drop]
+        by_cases hc : (b :: t).length < rem
+        · have : ((b :: t).drop (readSize rem sched)).length < rem - ((b :: t).take (readSize rem sched)).length := by
+            rw [hlt, hld]; omega
+          rw [if_pos this, if_pos hc]
+        · have : ¬ ((b :: t).drop (readSize rem sched)).length < rem - ((b :: t).take (readSize rem sched)).length := by
+            rw [hlt, hld]; omega
+          rw [if_neg this, if_neg hc]
+
+end Wz.Urlencode
